@@ -525,6 +525,19 @@ func (w *Walker) evalCall(call *ast.CallExpr, st *State, nres int) []callRes {
 			site := w.recA().siteFor(w.sfn(), call, "deref", id, recvs[i].Args[0].Name)
 			w.A.snap(site, s, recvs[i], args[i], nil, recvs[i].Args[1])
 		}
+		// a method called on one of the lazily built block objects (the cache field itself, or a local holding what the
+		// lazy constructor returned): the constructors return nil in several states, and the library tests for that
+		// elsewhere — a use without the test is a nil dereference waiting for that state
+		if w.record && recvs[i] != nil && strings.HasPrefix(id, "if:") && w.Fn.Pkg.PkgPath == modPath {
+			rt := recvs[i]
+			if rt.K == KField && (rt.Name == "ctx.block" || rt.Name == "ctx.preBlock" || rt.Name == "ctx.header" || rt.Name == "ctx.preHeader") {
+				site := w.recA().siteFor(w.sfn(), call, "deref", id, rt.Name)
+				w.A.snap(site, s, rt, args[i], nil, nil)
+			} else if rt.K == KNil {
+				site := w.recA().siteFor(w.sfn(), call, "deref", id, "nil")
+				w.A.snap(site, s, rt, args[i], nil, nil)
+			}
+		}
 		w.extEffects(id, call, recvs[i], args[i], s)
 		out = append(out, callRes{s, res})
 	}
